@@ -463,6 +463,31 @@ func checkTemplateCounts(prog *core.Program, rr *core.RuleRun, fn *ssa.Function,
 			if !dec {
 				init = ""
 			}
+			// ascending form: n := 0; n < N; n++ runs N times
+			if init == "" {
+				zero, inc := false, false
+				for i, e := range phi.Edges {
+					if bo, ok := e.(*ssa.BinOp); ok && bo.Op == token.ADD && bo.X == ssa.Value(phi) {
+						if c, ok := ssaConstInt(bo.Y); ok && c == 1 {
+							inc = true
+						}
+					} else if !l.Blocks[l.Header.Preds[i]] {
+						if c, ok := ssaConstInt(e); ok && c == 0 {
+							zero = true
+						}
+					}
+				}
+				if zero && inc {
+					for _, ref := range referrers(phi) {
+						if cmp, ok := ref.(*ssa.BinOp); ok && cmp.Op == token.LSS && cmp.X == ssa.Value(phi) && cmp.Block() == l.Header {
+							init = printExpr(fn, cmp.Y, 0)
+						}
+					}
+				}
+			}
+			if init != "" {
+				break
+			}
 		}
 		exp, known := want[list]
 		if !known {
